@@ -174,6 +174,20 @@ func c14Gen(rt *rapid.T) wProg {
 				}
 				p.Ops = append(p.Ops, wOp{K: "tick", N: 5500}, wOp{K: "del", S: a, T: ta, A: "topic", F: gPct(rt, 50)})
 			}
+		case x == 89:
+			// everybody leaves the group; at the very moment its idle timer fires several sessions come back
+			for k := range p.Sess {
+				p.Ops = append(p.Ops, wOp{K: "leave", S: k, T: "g0"})
+			}
+			p.Ops = append([]wOp{{K: "lat"}}, p.Ops...)
+			p.Cfg.Lat = nil
+			k := gInt(rt, 1, len(p.Sess), "natpar")
+			perm := rapid.Permutation(seqInts(len(p.Sess))).Draw(rt, "atperm")
+			var par []wOp
+			for j := 0; j < k; j++ {
+				par = append(par, wOp{K: gPick(rt, []string{"sub", "sub", "sub", "pub", "get"}, "atk"), S: perm[j], T: "g0", A: "desc", L: gInt(rt, 0, 3, "aty")})
+			}
+			p.Ops = append(p.Ops, wOp{K: "par", Par: par, At: "g0", AtUs: gPick(rt, []int{0, 0, 1}, "atus")}, wOp{K: "tick", N: 100})
 		case x < 92:
 			// slow consumer: pause one attached session, flood the topic from another one
 			s := gInt(rt, 1, len(p.Sess)-1, "slow")
